@@ -379,6 +379,15 @@ def run(chk):
         raise common.MachineryError('MapStore design-level invariant violated: ' + r.tail)
     chk.tlc(r, 'MapStoreMC: every build history over 3 nodes to depth 5 (thorough 6): BackendsAgree, '
                'PropsSurvive, IndexWithinTable, ReopenOK')
+    if pid in ('C12', 'C18'):
+        # opportunistic: the same invariants as an INDUCTIVE invariant of the build-operation core, by Apalache
+        a0 = common.run_apalache('MapStoreApa.tla', 'Init', 'IndInv', 0)
+        a1 = common.run_apalache('MapStoreApa.tla', 'IndInit', 'IndInv', 1)
+        chk.cov['apalache_inductive_invariant'] = {
+            'module': 'spec/MapStoreApa.tla', 'IndInv': 'IndexWithin(w) /\\ IndexWithin(c) /\\ PropsSurvive /\\ (~lost => SameContent)',
+            'base_case_Init_implies_IndInv': a0[0], 'step_IndInv_and_Next_implies_IndInv_prime': a1[0],
+            'bound': 'arbitrary states generated with Gen(4): up to 4 elements per set / function; unbounded integer ids and coordinates',
+            'seconds': round(a0[1] + a1[1], 1)}
     d = common.scratch()
     runs = []
     n_runs = {'C11': (160, 1500), 'C12': (160, 1500), 'C18': (160, 1500)}[pid][thorough]
